@@ -95,7 +95,7 @@ def shards(tier):
     out += [{"kind": "prefixes", "n": 400 if quick else 5000} for _ in range(8)]
     try:
         from vf.gen import conforming  # noqa
-        out += [{"kind": "conforming", "n": 200 if quick else 8000} for _ in range(2)]
+        out += [{"kind": "conforming", "n": 600 if quick else 8000} for _ in range(4)]
     except ImportError:
         pass
     return out
@@ -134,3 +134,17 @@ def finish(cov, total, tier):
         cov["error_codes_not_reached"] = sorted(set(constants.E) - set(codes))
     except Exception:
         pass
+
+
+def shrink_extra(case, fails):
+    if case.get("kind") != "conforming":
+        return case
+    from vf.gen import conforming
+
+    def f(doc):
+        c = dict(case)
+        c["doc"] = doc
+        return fails(c)
+    c = dict(case)
+    c["doc"] = conforming.shrink_doc(case["doc"], f, budget=300)
+    return c
